@@ -217,16 +217,17 @@ Section Reflection.
     subst m x. rewrite HSlen in Hrest. replace (0 + 0) with 0 by lia.
     destruct rest as [| x' rest']; [left; reflexivity |]. right.
     cbn [greedy] in Hrest. destruct Hrest as (m' & Hx' & Hocc' & Hfirst' & Hrest').
+    pose proof Hocc' as (Hm'0 & _).
     apply (occZ_skipn corpus Sg (0 + L) m' ltac:(lia) ltac:(lia)) in Hocc'.
-    pose proof (occS_where _ Hocc') as [H | [HL2 H]]; [pose proof Hocc' as (? & _); lia |].
+    pose proof (occS_where _ Hocc') as [H | [HL2 H]]; [lia |].
     assert (m' = 0) by lia. subst m' x'. split; [exact HL2 |].
     rewrite HSlen in Hrest'. replace (0 + L + 0) with 2 in Hocc' by lia. split; [| exact Hocc'].
     replace (0 + (0 + 0 + L)) with 2 by lia.
     destruct rest' as [| x'' rest'']; [reflexivity |]. exfalso.
     cbn [greedy] in Hrest'. destruct Hrest' as (m'' & _ & Hocc'' & _).
+    pose proof Hocc'' as (Hm''0 & _).
     apply (occZ_skipn _ Sg (0 + L) m'' ltac:(lia) ltac:(lia)) in Hocc''.
     apply (occZ_skipn corpus Sg (0 + L) _ ltac:(lia) ltac:(lia)) in Hocc''.
-    pose proof Hocc'' as (Hpos & _). pose proof Hocc' as (Hpos' & _).
     destruct (occS_where _ Hocc'') as [H0 | [_ H2]]; lia.
   Qed.
 
@@ -239,7 +240,110 @@ Section Reflection.
     pose proof (occR_where m Hocc) as Hm. subst m x. replace (L - 1 + 0) with (L - 1) by lia.
     destruct rest as [| x' rest']; [reflexivity |]. exfalso.
     cbn [greedy] in Hrest. destruct Hrest as (m' & _ & Hocc' & _). rewrite HRlen in Hocc'.
+    pose proof Hocc' as (Hm'0 & _).
     apply (occZ_skipn corpus Rg (L - 1 + L) m' ltac:(lia) ltac:(lia)) in Hocc'.
-    pose proof Hocc' as (Hpos & _). pose proof (occR_where _ Hocc'). lia.
+    pose proof (occR_where _ Hocc'). lia.
   Qed.
 End Reflection.
+
+(** ** one detection under [le2]: a plain backtrace (nothing recorded) or the zigzag x y x y *)
+Definition zpat (r : list pt) (a : Z) : Prop :=
+  exists x y, idx r (a - 2) = Ok x /\ idx r (a - 1) = Ok y /\ idx r a = Ok x /\ idx r (a + 1) = Ok y.
+
+Lemma detect_le2 f r seqs visited i vertex : le2 r -> contig r visited i -> i < zlen r ->
+  idx r i = Ok vertex -> sbk visited vertex = true ->
+  (exists L, 2 <= L <= zlen visited /\ i + L - 1 <= zlen r /\
+      kmpDedupLoop (S f) r seqs visited i = kmpDedupLoop f r seqs [] (i + L - 1)) \/
+  (2 <= zlen visited /\ i + 2 <= zlen r /\ zpat r i /\ exists key,
+      kmpDedupLoop (S f) r seqs visited i = kmpDedupLoop f r (seq_insert seqs key (i, i + 2)) [] (i + 2)).
+Proof.
+  intros Hle2 Hct Hi Ev Hsb. pose proof (sbk_true _ _ Hsb) as [Hlv Hv2].
+  pose proof Hct as (H0 & Hle & Heq).
+  destruct (idx_in_range visited (zlen visited - 1)) as [v1 E1]; [lia |].
+  destruct (reverseScan_ok (length visited) r visited i 3 [v1; vertex]) as [rs Ers]; [lia | lia |].
+  destruct (reverseScan_spec _ _ _ _ _ _ _ Ers) as [Hrs Hlen]; [lia | lia | |].
+  { pose proof (idx_Ok_inv _ _ _ E1) as [_ E1']. pose proof (idx_Ok_inv _ _ _ Hv2) as [_ E2'].
+    replace (3 - 1) with 2 by lia.
+    rewrite (skipn_nth_cons visited _ vertex E2').
+    replace (S (Z.to_nat (zlen visited - 2))) with (Z.to_nat (zlen visited - 1)) by lia.
+    rewrite (skipn_nth_cons visited _ v1 E1').
+    replace (S (Z.to_nat (zlen visited - 1))) with (length visited) by (unfold zlen in *; lia).
+    rewrite skipn_all. reflexivity. }
+  replace (3 - 1) with 2 in Hlen by lia.
+  assert (HLr : zlen (rev rs) = zlen rs) by (unfold zlen; rewrite rev_length; reflexivity).
+  set (L := zlen rs) in *. set (start := i - L).
+  assert (Hstart : 0 <= start) by (unfold start, zlen in *; lia).
+  (* positions of visited in the ring *)
+  assert (Hvis : forall k, 0 <= k < zlen visited -> idx visited k = idx r (i - zlen visited + k))
+    by (intros k Hk; apply contig_idx; assumption).
+  (* the reflection around i - 1 *)
+  assert (Hrefl : forall k, 0 <= k <= L - 1 ->
+            exists p, idx r (start + L - 1 - k) = Ok p /\ idx r (start + L - 1 + k) = Ok p).
+  { intros k Hk. unfold start.
+    destruct (Z.eq_dec k 0) as [-> | Hk0].
+    { exists v1. rewrite Hvis in E1 by lia.
+      replace (i - L + L - 1 - 0) with (i - zlen visited + (zlen visited - 1)) by lia.
+      replace (i - L + L - 1 + 0) with (i - zlen visited + (zlen visited - 1)) by lia. auto. }
+    destruct (Z.eq_dec k 1) as [-> | Hk1].
+    { exists vertex. rewrite Hvis in Hv2 by lia.
+      replace (i - L + L - 1 - 1) with (i - zlen visited + (zlen visited - 2)) by lia.
+      replace (i - L + L - 1 + 1) with i by lia. auto. }
+    destruct (reverseScan_refl _ _ _ _ _ _ _ Ers ltac:(reflexivity) (k + 1)) as (p & Hp1 & Hp2); [fold L; lia |].
+    exists p. rewrite Hvis in Hp1 by lia.
+    replace (i - L + L - 1 - k) with (i - zlen visited + (zlen visited - (k + 1))) by lia.
+    replace (i - L + L - 1 + k) with (i + (k + 1) - 2) by lia. auto. }
+  (* the segment is the slice ring[start .. i) *)
+  assert (Hseg : rev rs = firstn (Z.to_nat L) (skipn (Z.to_nat start) r)).
+  { pose proof (f_equal (@rev pt) Hrs) as Hseg1. rewrite rev_involutive in Hseg1.
+    rewrite Hseg1, (skipn_block r visited _ Heq).
+    f_equal; [unfold L, zlen in *; lia |]. f_equal. unfold start, L, zlen in *. lia. }
+  assert (HS : forall k, 0 <= k < L -> idx (rev rs) k = idx r (start + k)).
+  { intros k Hk. rewrite Hseg. apply idx_slice; lia. }
+  assert (HR : forall k, 0 <= k < L -> idx rs k = idx r (start + L - 1 - k)).
+  { intros k Hk. rewrite <- (rev_involutive rs) at 1. rewrite idx_rev by lia. rewrite HLr.
+    rewrite HS by lia. f_equal. lia. }
+  (* the corpus *)
+  destruct (Hrefl (L - 1) ltac:(lia)) as (plast & _ & Hplast).
+  apply idx_Ok_inv in Hplast. destruct Hplast as [Hplast _].
+  destruct (corpusLoop_ok (length r + 2) r (rev rs) start (start + 3 * L) 0) as [corpus Ec];
+    try lia; try (unfold start; lia).
+  { unfold zlen at 1. unfold start. lia. }
+  destruct (corpusLoop_spec _ _ _ _ _ _ _ Ec) as (e' & He1 & He2 & Hcorp).
+  assert (Hce : zlen corpus = e' - start) by (rewrite Hcorp; apply zlen_slice; lia).
+  assert (Hclen : 2 * L - 1 <= zlen corpus).
+  { apply (corpusLoop_len _ _ _ _ _ _ _ Ec (2 * L - 1)); lia. }
+  assert (Hcidx : forall k, 0 <= k < zlen corpus -> idx corpus k = idx r (start + k)).
+  { intros k Hk. rewrite Hcorp. apply idx_slice; lia. }
+  destruct (searchS r start L corpus (rev rs) rs Hle2 ltac:(lia) Hrefl Hcidx Hclen HLr HS eq_refl)
+    as (ms & Ems & Hms).
+  pose proof (searchR r start L corpus (rev rs) rs Hle2 ltac:(lia) Hrefl Hcidx Hclen eq_refl HR) as Erms.
+  (* run the iteration *)
+  rewrite kmpDedupLoop_S. destruct (Z.ltb_spec i (zlen r)) as [_ | Hge]; [| lia].
+  rewrite Ev. cbn [bind]. cbv zeta. fold (sbk visited vertex). rewrite Hsb. cbn [negb].
+  rewrite E1, Hv2. cbn [bind]. rewrite Ers. cbn [bind]. rewrite HLr. fold L. fold start.
+  rewrite Ec. cbn [bind]. rewrite Ems, Erms. cbn [bind].
+  change (zlen [L - 1]) with 1.
+  destruct Hms as [-> | (HL2 & -> & Hocc2)].
+  - left. exists L. split; [lia |]. split; [unfold start in *; lia |].
+    change (zlen [0]) with 1.
+    change ((1 <? 1) && (1 - 1 =? 1)) with false. change ((1 <? 1) && (1 =? 1)) with false.
+    change ((1 =? 1) && (1 =? 1)) with true. cbv iota. f_equal. unfold start. lia.
+  - right. split; [lia |].
+    destruct Hocc2 as (_ & Hfit2 & Hocc2). rewrite HLr in Hfit2, Hocc2.
+    pose proof (Hocc2 1 ltac:(lia)) as H31. rewrite Hcidx in H31 by lia. rewrite HS in H31 by lia.
+    destruct (Hrefl 0 ltac:(lia)) as (y & Hy & _). destruct (Hrefl 1 ltac:(lia)) as (x & Hx1 & Hx2).
+    assert (Hi1 : idx r (i + 1) = Ok y).
+    { replace (i + 1) with (start + (2 + 1)) by (unfold start; lia). rewrite H31.
+      replace (start + 1) with (start + L - 1 - 0) by lia. exact Hy. }
+    pose proof (idx_Ok_inv _ _ _ Hi1) as [Hi1r _].
+    split; [lia |]. split.
+    + exists x, y. replace (i - 2) with (start + L - 1 - 1) by (unfold start; lia).
+      replace (i - 1) with (start + L - 1 - 0) by (unfold start; lia).
+      split; [exact Hx1 |]. split; [exact Hy |]. split; [| exact Hi1].
+      replace i with (start + L - 1 + 1) by (unfold start; lia). exact Hx2.
+    + exists (rev rs). change (zlen [0; 2]) with 2.
+      change ((1 <? 2) && (2 - 1 =? 1)) with true. cbv iota.
+      change (lastZ [0; 2]) with (Ok 2). cbn [bind].
+      replace (start + L) with i by (unfold start; lia).
+      replace (start + 2 + L) with (i + 2) by (unfold start; lia). reflexivity.
+Qed.
